@@ -176,7 +176,15 @@ func genC10(r *Rng, e *Emitter, n int) {
 			}
 			cx := a[0] + t*(b[0]-a[0])
 			cy := a[1] + t*(b[1]-a[1])
-			c = mk(ulps(cx, r.Intn(7)-3), ulps(cy, r.Intn(7)-3))
+			// stay inside the property's window: ordinates are zero or of magnitude within [1e-100, 1e100]
+			// (a few ulps away from an exact zero would be a denormal, whose products underflow)
+			win := func(v float64) float64 {
+				if v != 0 && math.Abs(v) < 1e-100 {
+					return 0
+				}
+				return v
+			}
+			c = mk(win(ulps(cx, r.Intn(7)-3)), win(ulps(cy, r.Intn(7)-3)))
 			e.tally("mode=near-collinear")
 		}
 		e.tally(fmt.Sprintf("scale=%d", scale))
